@@ -55,6 +55,35 @@ def tlc_part(ctx):
     return cases
 
 
+def rss_rows(ctx, rng, n):
+    recs = [dict(ds=[rng.randrange(10) for _ in range(13)]) for _ in range(n)]
+    res = vlib.run_tlc(ctx, "MC_RSS14", "Gen_RSS14", files={"seeds.ndjson": recs}, workers=4, timeout=1500)
+    syms = vlib.tlc_printed(res)
+    if len(syms) != n:
+        raise vlib.Infra("Gen_RSS14 printed %d of %d symbols:\n%s" % (len(syms), n, res.out[-1500:]))
+    out = []
+    for s in syms:
+        r = s["runs"][1:]                    # bar first; the leading space is part of the quiet zone
+        out.append(r)
+        for _ in range(3):
+            m = list(r)
+            k = rng.random()
+            i = rng.randrange(len(m))
+            if k < 0.4:
+                m[i] = max(1, m[i] + rng.choice([-1, 1, 2]))
+            elif k < 0.6:
+                m = m[:rng.randrange(1, len(m))]
+            elif k < 0.8:
+                m = m[rng.randrange(1, len(m) - 1):]
+            else:
+                m = m[:i] + [m[i]] + m[i:]
+            if len(m) % 2 == 0:              # a row of runs starts and ends with a bar
+                m = m[:-1]
+            if m:
+                out.append(m)
+    return out
+
+
 # ------------------------------------------------------------------ seeded inputs
 def hints(r, charset=True):
     h = []
@@ -468,6 +497,15 @@ def run(ctx):
                     gen_meta.append(c)
         else:
             gen_inputs.append(E(c["op"], c["api"], c["a"], c["b"], c["h"]))
+            gen_meta.append(c)
+    # RSS-14: the library has no writer for it; conforming symbols come from the reference encoder of spec/RSS14.tla (X01), here
+    # also damaged: one run changed by a module, runs dropped at either end, a run doubled - every variant as image, row, reversed row
+    rss = rss_rows(ctx, rng, 25 if ctx.quick else 400)
+    for runs in rss:
+        c = dict(fam="rss14", cls="any", why="reference RSS-14 symbol and damaged variants", b=runs)
+        for mode in (0, 1, 2):
+            gen_inputs.append(E("runs", "rss14", [rng.choice([1, 2, 10]), rng.choice([1, 2, 3]), rng.choice([1, 4, 40]), mode] + ([0] if mode and rng.random() < 0.3 else []),
+                                runs, [2] if rng.random() < 0.3 else []))
             gen_meta.append(c)
     obs = judge(ctx, gen_inputs, "TLC-generated input")
     cls = collections.Counter(c["cls"] for c in cases)
